@@ -365,38 +365,60 @@ pub fn wide_task(rng: &mut Rng, small: bool) -> (TaskSpec, Vec<Item>) {
         2 => 255,
         _ => rng.urange(33, if small { 38 } else { 44 }),
     };
-    let prefix: Vec<u8> = match rng.below(3) {
-        0 => vec![],
-        1 => vec![*rng.pick(b"ab")],
-        _ => vec![*rng.pick(b"ab"), *rng.pick(b"xy")],
+    // one prefix, or the same fan repeated under 2-3 prefixes (identical
+    // wide sub-automata: the node cache must hand out the right address for
+    // the second and third occurrence, also after evictions)
+    let prefixes: Vec<Vec<u8>> = match rng.below(6) {
+        0 => vec![vec![]],
+        1 => vec![vec![*rng.pick(b"ab")]],
+        2 => vec![vec![*rng.pick(b"ab"), *rng.pick(b"xy")]],
+        3 => vec![b"a".to_vec(), b"b".to_vec()],
+        4 => vec![b"ax".to_vec(), b"ay".to_vec(), b"b".to_vec()],
+        _ => vec![b"a".to_vec(), b"ba".to_vec(), b"bb".to_vec()],
     };
+    let repeated = prefixes.len() > 1;
     let start = if fan >= 256 { 0 } else { rng.usize_below(256 - fan + 1) };
     let mut set: BTreeMap<Vec<u8>, ()> = BTreeMap::new();
-    if rng.chance(1, 2) {
-        set.insert(prefix.clone(), ());
-    }
+    let prefix_is_key = rng.chance(1, 2);
     let tail_mode = rng.below(3);
-    for b in start..start + fan {
-        let mut k = prefix.clone();
-        k.push(b as u8);
-        match tail_mode {
-            0 => {}
-            1 => k.push(b'z'),
-            _ => {
-                if rng.chance(1, 2) {
-                    k.push(*rng.pick(b"qz"));
+    for prefix in &prefixes {
+        if prefix_is_key {
+            set.insert(prefix.clone(), ());
+        }
+        for b in start..start + fan {
+            let mut k = prefix.clone();
+            k.push(b as u8);
+            match tail_mode {
+                0 => {}
+                1 => k.push(b'z'),
+                _ => {
+                    if b % 3 == 0 {
+                        k.push(if b % 2 == 0 { b'q' } else { b'z' });
+                    }
                 }
             }
+            set.insert(k, ());
         }
-        set.insert(k, ());
     }
+    // a few unrelated keys first in order (they occupy cache cells before
+    // the wide nodes arrive)
     for _ in 0..rng.urange(0, 4) {
         let l = rng.urange(0, 3);
         let k: Vec<u8> = (0..l).map(|_| *rng.pick(b"abxyz")).collect();
         set.insert(k, ());
     }
+    if repeated || rng.chance(1, 2) {
+        for k in [&b"0"[..], &b"01"[..], &b"1zz"[..], &b"2"[..]] {
+            set.insert(k.to_vec(), ());
+        }
+    }
     let ks: Vec<Vec<u8>> = set.into_keys().collect();
-    let style = if valued {
+    let style = if !valued {
+        ValueStyle::Zero
+    } else if repeated && rng.chance(2, 3) {
+        // equal outputs everywhere keep the repeated sub-automata identical
+        *rng.pick(&[ValueStyle::Constant, ValueStyle::Zero])
+    } else {
         *rng.pick(&[
             ValueStyle::Decreasing,
             ValueStyle::Boundary,
@@ -404,8 +426,6 @@ pub fn wide_task(rng: &mut Rng, small: bool) -> (TaskSpec, Vec<Item>) {
             ValueStyle::Increasing,
             ValueStyle::Constant,
         ])
-    } else {
-        ValueStyle::Zero
     };
     let vs = assign_values(rng, ks.len(), style);
     let items: Vec<Item> = ks.into_iter().zip(vs).collect();
